@@ -75,6 +75,8 @@ def build_fully(case, bare_ok=False):
     if f is None:
         return ()
     if isinstance(f, list):
+        if len(f) > 1 and (len(case["sub"]) + case["nparam"]) % 2 == 1:
+            return tuple(reversed(f))   # the order in which the caller lists the blocks must not matter
         return tuple(f)
     if bare_ok and set(f) == {"0"} and max(case["sub"]) == 0 and (len(case["sub"]) + case["nparam"]) % 2 == 0:
         # single block: the mask may be given bare (the library wraps it as {0: mask}); half of such cases
